@@ -44,7 +44,14 @@ type Prog struct {
 	NInstr   int
 	GOOS     string
 	GOARCH   string
+	Inline   *InlineStats // helper inlining performed before SSA construction (inline.go)
 }
+
+// noInline switches helper inlining off (-no-inline); dumpInlinedDir receives the transformed sources.
+var (
+	noInline       bool
+	dumpInlinedDir string
+)
 
 // CallSite is one call instruction resolved to one in-package callee.
 type CallSite struct {
@@ -95,6 +102,27 @@ func loadProg(repo, goos, goarch string, tests bool) (*Prog, error) {
 		return nil, fmt.Errorf("package %s not among loaded packages", absnfsPath)
 	}
 	p.Fset = p.Main.Fset
+	if !noInline {
+		st, ierr := inlineHelpers(pkgs, p.Main)
+		if ierr != nil {
+			// the ASTs are half-transformed: load again and analyse the code as written
+			noInline = true
+			q, err := loadProg(repo, goos, goarch, tests)
+			noInline = false
+			if err != nil {
+				return nil, err
+			}
+			st.Disabled = ierr.Error()
+			q.Inline = st
+			return q, nil
+		}
+		p.Inline = st
+		if dumpInlinedDir != "" && st.Rounds > 0 {
+			if err := dumpInlined(p.Main, dumpInlinedDir); err != nil {
+				return nil, err
+			}
+		}
+	}
 	sp, _ := ssautil.AllPackages(pkgs, ssa.InstantiateGenerics)
 	sp.Build()
 	p.SSA = sp
